@@ -39,6 +39,10 @@ pub struct ThCfg {
     /// the stream then counts as damaged (values or errors, no panic, same outcome under every fragmentation)
     #[serde(default)]
     pub odd_header: u8,
+    /// 0/1: message lengths as given; otherwise every `Message` payload is `len * huge_scale` bytes: single
+    /// records far beyond the reader's buffer (hundreds of KiB to a few MiB), which it has to grow for
+    #[serde(default)]
+    pub huge_scale: u16,
 }
 
 #[derive(Clone, Debug, Serialize, Deserialize, PartialEq)]
@@ -300,7 +304,7 @@ fn build_stream(cfg: &ThCfg, ops: &[ThOp]) -> Built {
                 let mut r = Prng::new(mix(cfg.seed, salt as u64, 3));
                 put_int(&mut out, -7);
                 put_int(&mut out, (cid % 64) as i32);
-                let d = r.bytes(len as usize);
+                let d = r.bytes(len as usize * cfg.huge_scale.max(1) as usize);
                 put_data(&mut out, &d);
                 expect.push((tick, Expect::Other("Message")));
             }
@@ -707,8 +711,16 @@ impl Engine for ThEngine {
             reuse_buffer: c.chance(1, 3),
             via_file: if c.chance(1, 5) { 1 + c.below(2) as u8 } else { 0 },
             odd_header: if c.chance(1, 12) { 1 + c.below(200) as u8 } else { 0 },
+            huge_scale: 0,
         };
-        let n = match c.below(10) {
+        // 1 run in 800: one record of 80 KiB .. 2.4 MiB in a short stream, delivered in pieces of a few KiB
+        let huge = c.chance(1, 800);
+        let cfg = if huge {
+            ThCfg { huge_scale: *c.pick(&[4u16, 16, 60, 75, 120]), mode: *c.pick(&[2u8, 3, 3]), max_piece: *c.pick(&[4096u16, 8191, 8192, 8193, 60000]), zero_reads: if c.chance(1, 2) { 20 } else { 0 }, via_file: 0, ..cfg }
+        } else {
+            cfg
+        };
+        let n = if huge { c.range(1, 12) } else { match c.below(10) {
             0..=3 => c.range(1, 30),
             4..=7 => c.range(30, 200),
             8 => c.range(200, 1500),
@@ -719,9 +731,9 @@ impl Engine for ThEngine {
                     c.range(200, 2500)
                 }
             }
-        };
+        } };
         let nplayers = *c.pick(&[1u64, 2, 3, 8, 64]);
-        let big_msgs = c.chance(1, 6);
+        let big_msgs = !huge && c.chance(1, 6);
         let mut ops = Vec::new();
         let mut next_player = 0u64;
         for _ in 0..n {
@@ -755,6 +767,10 @@ impl Engine for ThEngine {
                 9 => ops.push(ThOp::Console { cid: s.range(0, 66) as i8 - 2, nargs: s.below(18) as u8, len: s.range(0, 30) as u8, salt: s.next_u64() as u32 }),
                 _ => ops.push(ThOp::Ex { kind: s.below(32) as u8, salt: s.next_u64() as u32, len: if big_msgs { s.range(0, 9000) as u16 } else { s.range(0, 40) as u16 } }),
             }
+        }
+        if huge {
+            let at = s.usize_below(ops.len() + 1);
+            ops.insert(at, ThOp::Message { cid: 0, len: *s.pick(&[9000u16, 20000, 20000]), salt: s.next_u64() as u32 });
         }
         if s.chance(9, 10) {
             ops.push(ThOp::Finish);
@@ -844,6 +860,9 @@ impl Engine for ThEngine {
             ctx.count("probe_valid_stream_checked");
             if bytes.len() > 8192 {
                 ctx.count("probe_stream_over_one_buffer");
+            }
+            if cfg.huge_scale > 1 && bytes.len() > 1 << 20 {
+                ctx.count("probe_record_over_1mib");
             }
         }
         // the same bytes under the fragmentation schedule
@@ -944,7 +963,7 @@ impl Engine for ThEngine {
         if cfg.zero_reads > 0 {
             v.push(ThCfg { zero_reads: 0, ..cfg.clone() });
         }
-        if cfg.mode != 1 {
+        if cfg.mode != 1 && cfg.huge_scale <= 1 {
             v.push(ThCfg { mode: 1, ..cfg.clone() });
         }
         if cfg.damage != 0 {
